@@ -1,1 +1,14 @@
-pub fn x(){}
+//! asemon: runtime monitors for alpine-alpaca/asefile (see /verif/DESIGN.md).
+pub mod blendref;
+pub mod common;
+pub mod encode;
+pub mod expect;
+pub mod gen;
+pub mod model;
+pub mod observe;
+pub mod program;
+pub mod refrender;
+pub mod rng;
+pub mod val;
+pub mod util;
+pub mod checks;
